@@ -282,6 +282,11 @@ theorem compact_roundtrip (r s v : Nat) (hr : r < 2 ^ 256) (hs : s < 2 ^ 256) (h
     simp only [decodeCompactRSV]
     rw [if_neg (by simp), h1, h2, h3, f1, f2, f3]
 
+/-- **An address is 20 bytes**: the last 20 of the 32 bytes of Keccak-256. -/
+theorem addressOf_length (C : Curve) (p : C.Pub) : (addressOf C p).length = 20 := by
+  simp [addressOf, Prim.keccak256_length]
+theorem keyAddress_length (C : Curve) (k : Nat) : (keyAddress C k).length = 20 := addressOf_length C _
+
 /-- Non-vacuity: the `Lawful` hypotheses are satisfiable (a one-key toy instance). -/
 def toyCurve : Curve :=
   { Pub := Nat, n := 2, pub := id, signCompact := fun _ _ => (27, 1, 1),
